@@ -344,6 +344,12 @@ func piecesToText(pieces []string, unit, eol string) string {
 			atLineStart = true
 		case "blankline":
 			sb.WriteString(e)
+		case "eolc3": // block comments that span lines, the closing mark at the START of a line (as in the manual's example)
+			sb.WriteString(" 注：「跨行" + e + "注释" + e + "」")
+		case "eolc4":
+			sb.WriteString(" /* 跨行" + e + "*/")
+		case "eolc5":
+			sb.WriteString(" 注：“跨行" + e + e + "”")
 		case "kw":
 			write(kwGlyph[v])
 		case "id":
@@ -400,6 +406,10 @@ func handleParse(raw json.RawMessage) interface{} {
 	res := map[string]interface{}{"len": len(src)}
 	if c.Tree || c.Text == nil {
 		res["text"] = text
+	}
+	// the front end reads its input; it does not write to it
+	if string(src) != text {
+		res["mutated"] = string(src)
 	}
 	if err != nil {
 		res["obs"] = "syntax-error"
